@@ -47,6 +47,10 @@ def env_knobs(rng, knobs, unusable_tmp=False):
         # where the simulated wall clock stands: the epoch, 2000, either side of 2^31 and 2^32 seconds, long ago relative to
         # every file's mtime, far ahead of it
         knobs["clock"] = rng.choice([1, 946684800, 2147483640, 2147483650, 4294967290, 4294967300, 1600000000, 7258118400])
+    if rng.random() < 0.08:
+        # every operation is preceded by a short pause (0..n microseconds, derived from the operation number): threads and
+        # tasks inside the tool drift against each other - nothing may depend on how fast the calls come
+        knobs["jitter_us"] = rng.choice([300, 2000, 5000])
     if rng.random() < 0.1:
         knobs["dt_unknown"] = True   # a file system whose readdir does not tell the entry type (d_type = DT_UNKNOWN)
     if rng.random() < 0.12:
